@@ -24,7 +24,7 @@ ASSUMPTIONS = [
     "model Yarel/Model/Intern.lean transcribes vm.rs string_store + new_gc_obj_string; tie = op-sequence correspondence",
     "Rust std (Vec, String compare) and rustc are trusted",
 ]
-TRUSTED = ["hook vm::verif::StringStore::intern repeats the 3-line glue of Vm::new_gc_obj_string with a caller-chosen hash"]
+TRUSTED = ["hook vm::verif::StringStore::intern repeats the glue of Vm::new_gc_obj_string with a caller-chosen hash (the glue itself is pinned statement by statement: string_creation_is_lookup_then_insert)"]
 
 ALPHA = ["a", "b", "c", "é", "€", "😀", "0", "_", " "]
 
@@ -41,6 +41,7 @@ REQUIRED_THEOREMS += ['rehash_loop_tie', 'store_adjust_capacity_tie', 'grow_test
 # who touches the intern table (inventory regenerated on every run): only new_gc_obj_string, by get and insert; no removal, no other method
 THEOREM_MODULES.append("Yarel.Props.InternSites")
 REQUIRED_THEOREMS += ['intern_table_is_only_looked_up_and_inserted_into', 'intern_table_methods_are_the_modelled_ones']
+REQUIRED_THEOREMS += ['string_creation_is_lookup_then_insert', 'string_objects_are_built_only_there']
 USES_GEN = True
 
 
